@@ -1,6 +1,7 @@
 import AFProofs.Lemmas.Prior
 import AFProofs.Lemmas.PriorDbl
 import AFProofs.Lemmas.PriorRandom
+import AFProofs.Lemmas.DblArith
 
 /-!
 # C02 — priors map the unit interval monotonically onto their support
@@ -786,5 +787,136 @@ example : Dbl.ofBits 0x8000000000000000 ≤ Dbl.ofBits 0 ∧ Dbl.ofBits 0 ≤ Db
   decide +kernel
 /-- the model's rounding on `Float` and on data agree on the witness (`round(0.100000000000004, 14)`) -/
 example : (pyRound 14 wL).toBits = (pyRoundD 14 dL).toBits.toUInt64 := by decide +kernel
+
+/-! ## the shift/scale arithmetic of the transform stacks on doubles
+
+`AFModel/DblArith.lean` computes IEEE `+ − × ÷` (round to nearest even) on `Dbl` exactly; with them the
+arithmetic around the special functions is inside the logic: `argD u = 1 - 2.0 * (1.0 - u)` (what
+`NormalMessage.value_for` hands to `erfinv`), `rawGaussianD = mean + (sigma * sqrt(2) * inv)`,
+`rawUniformD = t * (U - L) + L`. They are compared bit for bit with Python's float arithmetic and with
+`message.value_for` (given scipy's intermediate values) on every run. What remains a hypothesis is only
+that scipy's `erfinv` (on `[-1, 1]`) and `ndtr` are non-decreasing. -/
+
+/-- `u ↦ 1 - 2.0 * (1.0 - u)` is non-decreasing on the unit interval of doubles and maps it into `[-1, 1]`
+(so `erfinv` is only ever called inside its domain). -/
+theorem argD_monotone (u v : Dbl) (hu0 : Dbl.zero ≤ u) (huv : u ≤ v) (hv1 : v ≤ Dbl.one) :
+    argD u ≤ argD v ∧ Dbl.neg' Dbl.one ≤ argD u ∧ argD v ≤ Dbl.one := by
+  have f1 : Dbl.one.isFinite = true := by decide +kernel
+  have t2 : Dbl.two.mag < infMag := by decide +kernel
+  have t0 : 0 < Dbl.two.mag := by decide +kernel
+  have tn : Dbl.two.neg = false := rfl
+  have hu1 : u ≤ Dbl.one := Dbl.le_trans _ _ _ huv hv1
+  have hv0 : Dbl.zero ≤ v := Dbl.le_trans _ _ _ hu0 huv
+  -- s = 1.0 - x
+  have s_anti := Dbl.add_mono_right Dbl.one _ _ f1 (Dbl.neg_anti u v huv)
+  have s_hi := Dbl.add_mono_right Dbl.one _ _ f1 (Dbl.neg_anti Dbl.zero u hu0)
+  have s_lo := Dbl.add_mono_right Dbl.one _ _ f1 (Dbl.neg_anti v Dbl.one hv1)
+  have e1 : Dbl.add Dbl.one (Dbl.neg' Dbl.zero) = Dbl.one := by decide +kernel
+  have e0 : Dbl.add Dbl.one (Dbl.neg' Dbl.one) = Dbl.zero := by decide +kernel
+  rw [e1] at s_hi
+  rw [e0] at s_lo
+  -- m = 2.0 * s
+  have m_anti := Dbl.mul_pos_left_mono Dbl.two _ _ t2 t0 tn s_anti
+  have m_hi := Dbl.mul_pos_left_mono Dbl.two _ _ t2 t0 tn s_hi
+  have m_lo := Dbl.mul_pos_left_mono Dbl.two _ _ t2 t0 tn s_lo
+  have e2 : Dbl.mul Dbl.two Dbl.one = Dbl.two := by decide +kernel
+  have e3 : Dbl.mul Dbl.two Dbl.zero = Dbl.zero := by decide +kernel
+  rw [e2] at m_hi
+  rw [e3] at m_lo
+  -- 1 - m
+  have r := Dbl.add_mono_right Dbl.one _ _ f1 (Dbl.neg_anti _ _ m_anti)
+  have r_lo := Dbl.add_mono_right Dbl.one _ _ f1 (Dbl.neg_anti _ _ m_hi)
+  have r_hi := Dbl.add_mono_right Dbl.one _ _ f1 (Dbl.neg_anti _ _ m_lo)
+  have e4 : Dbl.add Dbl.one (Dbl.neg' Dbl.two) = Dbl.neg' Dbl.one := by decide +kernel
+  rw [e4] at r_lo
+  rw [e1] at r_hi
+  exact ⟨r, r_lo, r_hi⟩
+
+/-- `mean + (sigma * sqrt(2) * inv)` is non-decreasing in `inv` (±inf included), for a finite mean and a
+finite positive `sigma * sqrt(2)`. -/
+theorem rawGaussianD_monotone (mean sigma inv inv2 : Dbl) (hm : mean.isFinite = true)
+    (hc : (Dbl.mul sigma Dbl.sqrt2).isFinite = true) (hc0 : 0 < (Dbl.mul sigma Dbl.sqrt2).mag)
+    (hcn : (Dbl.mul sigma Dbl.sqrt2).neg = false) (h : inv ≤ inv2) :
+    rawGaussianD mean sigma inv ≤ rawGaussianD mean sigma inv2 := by
+  unfold rawGaussianD
+  exact Dbl.add_mono_right mean _ _ hm
+    (Dbl.mul_pos_left_mono _ inv inv2 ((Dbl.finite_iff _).mp hc) hc0 hcn h)
+
+/-- `t * (U - L) + L` is non-decreasing in `t` for finite limits `L < U` whose difference does not
+overflow (`U - L > 0` is proved, not assumed: distinct doubles have a non-zero difference). -/
+theorem rawUniformD_monotone (L U t t2 : Dbl) (hL : L.isFinite = true) (hU : U.isFinite = true)
+    (hLU : L < U) (hw : (Dbl.sub U L).isFinite = true) (h : t ≤ t2) :
+    rawUniformD t L U ≤ rawUniformD t2 L U := by
+  obtain ⟨wn, w0⟩ := Dbl.sub_pos L U hL hU hLU
+  unfold rawUniformD
+  exact Dbl.add_mono_left _ _ L hL
+    (Dbl.mul_pos_right_mono _ t t2 ((Dbl.finite_iff _).mp hw) w0 wn h)
+
+/-- `GaussianPrior.value_for` on doubles, end to end (argument arithmetic → `erfinv` → mean/sigma
+arithmetic → limit gate): non-decreasing in the unit value on `[0, 1]`, the only hypothesis being that
+scipy's `erfinv` is non-decreasing on `[-1, 1]`. -/
+theorem gaussian_value_for_monotone_on_doubles (erfinv : Dbl → Dbl)
+    (herf : ∀ x y, Dbl.neg' Dbl.one ≤ x → x ≤ y → y ≤ Dbl.one → erfinv x ≤ erfinv y)
+    (mean sigma L U : Dbl) (hm : mean.isFinite = true)
+    (hc : (Dbl.mul sigma Dbl.sqrt2).isFinite = true) (hc0 : 0 < (Dbl.mul sigma Dbl.sqrt2).mag)
+    (hcn : (Dbl.mul sigma Dbl.sqrt2).neg = false)
+    (ignore : Bool) (places : Nat) (u v a b : Dbl) (hu0 : Dbl.zero ≤ u) (huv : u ≤ v) (hv1 : v ≤ Dbl.one)
+    (ha : finishD false ignore places L U (rawGaussianD mean sigma (erfinv (argD u))) = .ok a)
+    (hb : finishD false ignore places L U (rawGaussianD mean sigma (erfinv (argD v))) = .ok b) : a ≤ b := by
+  obtain ⟨h1, h2, h3⟩ := argD_monotone u v hu0 huv hv1
+  have hz := herf _ _ h2 h1 h3
+  exact finishD_monotone false ignore places L U _ _ a b
+    (rawGaussianD_monotone mean sigma _ _ hm hc hc0 hcn hz) ha hb
+
+/-- `UniformPrior.value_for` on doubles, end to end (`NormalMessage(0, 1).value_for` → `ndtr` →
+`t * (U - L) + L` → limit gate → `round` → clamp): non-decreasing in the unit value on `[0, 1]`, the only
+hypotheses being that scipy's `erfinv` (on `[-1, 1]`) and `ndtr` are non-decreasing. -/
+theorem uniform_value_for_monotone_on_doubles (erfinv ndtr : Dbl → Dbl)
+    (herf : ∀ x y, Dbl.neg' Dbl.one ≤ x → x ≤ y → y ≤ Dbl.one → erfinv x ≤ erfinv y)
+    (hndtr : ∀ x y, x ≤ y → ndtr x ≤ ndtr y)
+    (L U : Dbl) (hL : L.isFinite = true) (hU : U.isFinite = true) (hLU : L < U)
+    (hw : (Dbl.sub U L).isFinite = true)
+    (ignore : Bool) (places : Nat) (u v a b : Dbl) (hu0 : Dbl.zero ≤ u) (huv : u ≤ v) (hv1 : v ≤ Dbl.one)
+    (ha : finishD true ignore places L U
+      (rawUniformD (ndtr (rawGaussianD Dbl.zero Dbl.one (erfinv (argD u)))) L U) = .ok a)
+    (hb : finishD true ignore places L U
+      (rawUniformD (ndtr (rawGaussianD Dbl.zero Dbl.one (erfinv (argD v)))) L U) = .ok b) : a ≤ b := by
+  obtain ⟨h1, h2, h3⟩ := argD_monotone u v hu0 huv hv1
+  have hz := herf _ _ h2 h1 h3
+  have hg := rawGaussianD_monotone Dbl.zero Dbl.one _ _ (by decide +kernel) (by decide +kernel)
+    (by decide +kernel) (by decide +kernel) hz
+  exact finishD_monotone true ignore places L U _ _ a b
+    (rawUniformD_monotone L U _ _ hL hU hLU hw (hndtr _ _ hg)) ha hb
+
+/-- the arithmetic the model computes is Python's: `1 - 2.0 * (1.0 - 0.3)`, `0.25 * (0.7 - 0.2) + 0.2`,
+`1.5 + (2.0 * sqrt(2) * 0.75)` -/
+example : argD (Dbl.ofBits 0x3FD3333333333333) = Dbl.ofBits 0xBFD9999999999998 := by decide +kernel
+example : rawUniformD (Dbl.ofBits 0x3FD0000000000000) (Dbl.ofBits 0x3FC999999999999A)
+    (Dbl.ofBits 0x3FE6666666666666) = Dbl.ofBits 0x3FD4CCCCCCCCCCCD := by decide +kernel
+example : rawGaussianD (Dbl.ofBits 0x3FF8000000000000) (Dbl.ofBits 0x4000000000000000)
+    (Dbl.ofBits 0x3FE8000000000000) = Dbl.ofBits 0x400CF876CCDF6CDA := by decide +kernel
+/-- non-vacuity: the hypotheses of the end-to-end statement are met (identity in place of the special
+functions, `UniformPrior(0.2, 0.7)` at units 0.5 ≤ 0.6), and both values are returned -/
+example (a b : Dbl)
+    (ha : finishD true false 15 (Dbl.ofBits 0x3FC999999999999A) (Dbl.ofBits 0x3FE6666666666666)
+      (rawUniformD (id (rawGaussianD Dbl.zero Dbl.one (id (argD (Dbl.ofBits 0x3FE0000000000000)))))
+        (Dbl.ofBits 0x3FC999999999999A) (Dbl.ofBits 0x3FE6666666666666)) = .ok a)
+    (hb : finishD true false 15 (Dbl.ofBits 0x3FC999999999999A) (Dbl.ofBits 0x3FE6666666666666)
+      (rawUniformD (id (rawGaussianD Dbl.zero Dbl.one (id (argD (Dbl.ofBits 0x3FE3333333333333)))))
+        (Dbl.ofBits 0x3FC999999999999A) (Dbl.ofBits 0x3FE6666666666666)) = .ok b) : a ≤ b :=
+  uniform_value_for_monotone_on_doubles id id (fun _ _ _ h _ => h) (fun _ _ h => h)
+    (Dbl.ofBits 0x3FC999999999999A) (Dbl.ofBits 0x3FE6666666666666) (by decide +kernel) (by decide +kernel)
+    (by decide +kernel) (by decide +kernel) false 15 (Dbl.ofBits 0x3FE0000000000000)
+    (Dbl.ofBits 0x3FE3333333333333) a b (by decide +kernel) (by decide +kernel) (by decide +kernel) ha hb
+
+example :
+    (match finishD true false 15 (Dbl.ofBits 0x3FC999999999999A) (Dbl.ofBits 0x3FE6666666666666)
+      (rawUniformD (rawGaussianD Dbl.zero Dbl.one (argD (Dbl.ofBits 0x3FE0000000000000)))
+        (Dbl.ofBits 0x3FC999999999999A) (Dbl.ofBits 0x3FE6666666666666)) with
+      | .ok v => v.toBits == 0x3FC999999999999A | .limit => false) = true ∧
+    (match finishD true false 15 (Dbl.ofBits 0x3FC999999999999A) (Dbl.ofBits 0x3FE6666666666666)
+      (rawUniformD (rawGaussianD Dbl.zero Dbl.one (argD (Dbl.ofBits 0x3FE3333333333333)))
+        (Dbl.ofBits 0x3FC999999999999A) (Dbl.ofBits 0x3FE6666666666666)) with
+      | .ok _ => true | .limit => false) = true := by decide +kernel
 
 end AF.C02
